@@ -20,6 +20,9 @@ Notation env := (nat -> R).
 (* kinds of variables: Plain = polynomial indeterminate; Phase d = angle variable x whose atom is e^{i x / d} *)
 Inductive vkind := Plain | Phase (den : positive).
 Notation config := (nat -> vkind).
+(* configuration from a list of the Phase variables (everything else Plain) *)
+Fixpoint config_of (l : list (nat * positive)) (v : nat) : vkind :=
+  match l with [] => Plain | (w, d) :: r => if Nat.eqb v w then Phase d else config_of r v end.
 
 (* ---------- list-of-rows matrices over an arbitrary carrier (used at C and at the symbolic ring) ---------- *)
 Section ListMat.
